@@ -94,6 +94,25 @@ def literal_ints(n):
     return out
 
 
+def literal_results(ctx):
+    """all (variant, decoder method) pairs parse_literal can produce (Anchor if a result is not Operand::V(self.decoder.m()?))"""
+    f = ctx.rspirv.fn(PAR, "parse_literal", "Parser")
+    st = f["body"][1]
+    tid = f["sig"]["params"][1][0]
+    if not (len(st) == 2 and st[0][0] == "local" and show(st[0][3]) == "self.type_tracker.resolve(%s)" % tid and st[1][0] == "expr"):
+        raise Anchor("parse_literal is not `let t = self.type_tracker.resolve(type_id); match t {..}`")
+    tv = st[0][1][1]
+    lits = literal_ints(st[1][1]) | {8, 16, 32, 64}
+    out = set()
+    for kind in ("none", "Integer", "Float"):
+        for w in ([None] if kind == "none" else sorted(lits)):
+            v = ("none",) if kind == "none" else ("some", ("type", kind, [w, True] if kind == "Integer" else [w]))
+            r = eval_lit(st[1][1], {tv: v})
+            if r[0] == "ok":
+                out.add((r[1], r[2]))
+    return out
+
+
 def run(ctx, chk):
     raw = ctx.raw
     mir = ctx.mir("rspirv")
